@@ -1,6 +1,7 @@
 mod catalogue;
 mod catalogue_gen;
 mod common;
+mod consumers;
 mod msgs;
 mod node;
 mod partlog;
@@ -24,6 +25,9 @@ fn dispatch_worker(wa: WorkerArgs) -> i32 {
         "partlog" => worker_main(&partlog::Partlog, wa),
         "catalogue" => worker_main(&catalogue::Catalogue, wa),
         "wire" => worker_main(&wire::Wire, wa),
+        "offsets" => worker_main(&consumers::Offsets, wa),
+        "groupcomp" => worker_main(&consumers::GroupComp, wa),
+        "groups" => worker_main(&consumers::Groups, wa),
         other => {
             eprintln!("unknown check {other}");
             4
@@ -36,6 +40,9 @@ fn dispatch_replay(check: &str, case: &Value, p: &Params) -> common::Outcome {
         "partlog" => replay_case(&partlog::Partlog, case, p),
         "catalogue" => replay_case(&catalogue::Catalogue, case, p),
         "wire" => replay_case(&wire::Wire, case, p),
+        "offsets" => replay_case(&consumers::Offsets, case, p),
+        "groupcomp" => replay_case(&consumers::GroupComp, case, p),
+        "groups" => replay_case(&consumers::Groups, case, p),
         other => {
             let mut o = common::Outcome::default();
             o.inconclusive = Some(format!("unknown check {other}"));
